@@ -124,6 +124,16 @@ func (m *omap) delete(i *interpreter, k value) {
 	}
 }
 
+// clearAll removes every entry (the clear builtin).
+func (m *omap) clearAll() {
+	if m == nil {
+		return
+	}
+	m.entries = m.entries[:0]
+	m.index = map[value]*oentry{}
+	m.nsym, m.live = 0, 0
+}
+
 func (m *omap) len() int {
 	if m == nil {
 		return 0
